@@ -85,7 +85,8 @@ MEMBERS = {
     'initsub': ["def __init_subclass__(cls, **kw):", "    super().__init_subclass__(**kw)", "    cls.sub_seen = True"],
     'slots': ["__slots__ = ('sl',)"],
     'desc': ["dd = Desc()"],
-    'private': ["__pv = 5", "def getpv(self):", "    return self.__pv, self.__pm(2), self.__st.digits[:2], self.__sep, self.__Nested().get()",
+    'private': ["__pv = 5", "def getpv(self):", "    return self.__pv, self.__pm(2), self.__st.digits[:2], self.__sep, self.__Nested().get(), self.__ps()",
+                "def __ps(self):", "    r = []", "    for _ in range(2):", "        r.append(hasattr(super(), 'who') and super().who())", "    return r",
                 "def __pm(self, __arg, *, __kw=1):", "    return [__arg + __kw + __q for __q in range(2)]",
                 "import string as __st", "from os import sep as __sep",
                 "class __Nested:", "    __z = 'nested-private'", "    def get(self):", "        return self.__z, type(self).__name__"],
